@@ -1161,7 +1161,7 @@ class CallMixin:
                     x, stn, path = self.field_path(ast, env0)
                     ft = self.type_at(stn, path)
                     for p, srt, lt in self.ty.leaves(ft):
-                        allowed.setdefault(self.leaf_name('F|%s|%s' % (stn, '.'.join(path)), p), []).append(x)
+                        allowed.setdefault(self.leaf_name('F|%s|%s' % (stn, path[0]), tuple(path[1:]) + tuple(p)), []).append(x)
                     continue
                 if ast[0] == 'call' and ast[1] in self.specs_ghostfields():
                     x = self.eval_int(ast[2][0], env0)
